@@ -354,6 +354,65 @@ class SharedNames(object):
 
 
 
+class MetTwice(object):
+    name = 'module-met-twice-in-one-call'
+    describe = ('ACME-PRODUCT-MIB in a file of its own (scalar, table, type, notification) and an older copy of it with fewer / '
+                'other symbols travelling in the file of ACME-SMI; both requested, either order, also through an importing third '
+                'module: the document of ACME-PRODUCT-MIB holds exactly the symbols of ONE of the two texts, each with that '
+                'text\'s data (never the tree of one copy rendered through the symbol table of the other)')
+
+    NEW = ('ACME-PRODUCT-MIB DEFINITIONS ::= BEGIN\nIMPORTS OBJECT-TYPE, NOTIFICATION-TYPE, Integer32, enterprises FROM SNMPv2-SMI;\n'
+           'acmeProduct OBJECT IDENTIFIER ::= { enterprises 4242 }\n'
+           'acmeUptime OBJECT-TYPE SYNTAX Integer32 MAX-ACCESS read-only STATUS current DESCRIPTION "d" ::= { acmeProduct 1 }\n'
+           'acmeSlotTable OBJECT-TYPE SYNTAX SEQUENCE OF AcmeSlotEntry MAX-ACCESS not-accessible STATUS current DESCRIPTION "d" ::= { acmeProduct 2 }\n'
+           'acmeSlotEntry OBJECT-TYPE SYNTAX AcmeSlotEntry MAX-ACCESS not-accessible STATUS current DESCRIPTION "d" INDEX { acmeSlotIndex } ::= { acmeSlotTable 1 }\n'
+           'AcmeSlotEntry ::= SEQUENCE { acmeSlotIndex Integer32, acmeSlotTemp Integer32 }\n'
+           'acmeSlotIndex OBJECT-TYPE SYNTAX Integer32 MAX-ACCESS not-accessible STATUS current DESCRIPTION "d" ::= { acmeSlotEntry 1 }\n'
+           'acmeSlotTemp OBJECT-TYPE SYNTAX Integer32 MAX-ACCESS read-only STATUS current DESCRIPTION "d" ::= { acmeSlotEntry 2 }\n'
+           'acmeHot NOTIFICATION-TYPE OBJECTS { acmeSlotTemp } STATUS current DESCRIPTION "d" ::= { acmeProduct 0 1 }\nEND\n')
+    OLD = ('ACME-PRODUCT-MIB DEFINITIONS ::= BEGIN\nIMPORTS OBJECT-TYPE, Integer32, enterprises FROM SNMPv2-SMI;\n'
+           'acmeProduct OBJECT IDENTIFIER ::= { enterprises 4242 }\n'
+           'acmeSlotTemp OBJECT-TYPE SYNTAX Integer32 MAX-ACCESS read-write STATUS deprecated DESCRIPTION "d" ::= { acmeProduct 7 }\n'
+           'acmeLegacy OBJECT IDENTIFIER ::= { acmeProduct 8 }\nEND\n')
+    SMI = 'ACME-SMI DEFINITIONS ::= BEGIN\nIMPORTS enterprises FROM SNMPv2-SMI;\nacmeRoot OBJECT IDENTIFIER ::= { enterprises 4241 }\nEND\n'
+    USER = ('ACME-USER-MIB DEFINITIONS ::= BEGIN\nIMPORTS acmeProduct FROM ACME-PRODUCT-MIB acmeRoot FROM ACME-SMI;\n'
+            'acmeUser OBJECT IDENTIFIER ::= { acmeProduct 99 }\nEND\n')
+
+    def blocks(self, tier):
+        return [{}]
+
+    def cases(self, block, tier):
+        for req in (['ACME-PRODUCT-MIB', 'ACME-SMI'], ['ACME-SMI', 'ACME-PRODUCT-MIB'], ['ACME-USER-MIB'],
+                    ['ACME-PRODUCT-MIB', 'ACME-USER-MIB'], ['ACME-USER-MIB', 'ACME-PRODUCT-MIB', 'ACME-SMI']):
+            for smi_first in (0, 1):
+                yield {'req': req, 'smi_first': smi_first}
+
+    def run_case(self, case):
+        pack = (self.SMI + self.OLD) if case['smi_first'] else (self.OLD + self.SMI)
+        texts = {'ACME-PRODUCT-MIB': self.NEW, 'ACME-SMI': pack, 'ACME-USER-MIB': self.USER}
+        res, written = env.compile_set(texts, case['req'], codegen='json', dialect=env.fresh_parser('smiV2'))
+        sig = 'C03|met-twice'
+        if res.get('ACME-PRODUCT-MIB') != 'compiled':
+            return 'failed', [('%s|not-compiled|%s' % (sig, res.get('ACME-PRODUCT-MIB')), '%r %r' % (
+                case, getattr(res.get('ACME-PRODUCT-MIB'), 'error', None)))], 1
+        doc = json.loads(written['ACME-PRODUCT-MIB'])
+        keys = set(doc) - set(['imports', 'meta'])
+        new = {'acmeProduct': None, 'acmeUptime': 'scalar', 'acmeSlotTable': 'table', 'acmeSlotEntry': 'row', 'acmeSlotIndex': 'column',
+               'acmeSlotTemp': 'column', 'acmeHot': None}
+        old = {'acmeProduct': None, 'acmeSlotTemp': 'scalar', 'acmeLegacy': None}
+        vs = []
+        for label, want in (('new', new), ('old', old)):
+            if keys == set(want):
+                for k, nt in want.items():
+                    if nt and doc[k].get('nodetype') != nt:
+                        vs.append(('%s|%s-copy|node-type-of-the-other-copy' % (sig, label), '%s is %r, its text says %s' % (k, doc[k].get('nodetype'), nt)))
+                break
+        else:
+            vs.append(('%s|symbols-of-neither-copy' % sig, 'document keys %r; one text declares %r, the other %r; request %r' % (
+                sorted(keys), sorted(new), sorted(old), case['req'])))
+        return repr(sorted(keys)), vs, 1
+
+
 def _option_histories():
     from mc.checks import C12
 
@@ -361,4 +420,4 @@ def _option_histories():
         prefix = 'C03'
     return OptionHistories()
 
-FAMILIES = [Sequences(), Names(), Parts(), ReservedKeys(), TableOrders(), SharedNames(), _option_histories()]
+FAMILIES = [Sequences(), Names(), Parts(), ReservedKeys(), TableOrders(), SharedNames(), MetTwice(), _option_histories()]
